@@ -719,7 +719,7 @@ func ruleGxzFlags(c *Ctx, r *Report, prefix string) {
 					}
 				}
 			}
-			r.Check(n >= 2 && good == n, rule, "keep-or-stdout", c.Pos(newReader.Pos()), "reader.keep = opts.keep || opts.stdout at every construction site",
+			r.Check(n >= 1 && good == n, rule, "keep-or-stdout", c.Pos(newReader.Pos()), "reader.keep = opts.keep || opts.stdout at every construction site",
 				fmt.Sprintf("reader.keep is not opts.keep || opts.stdout at %d of %d construction sites: -c or -k could remove the input", n-good, n))
 		}
 	}
